@@ -149,6 +149,10 @@ func c08R5(c *Ctx) {
 				goodB = false
 			}
 		}
+		if acc != nil {
+			short := factCmp(factsAt(rd.Block()), token.LSS, isValue(acc), isVar("size"))
+			c.check(short, "pipelineSendHash/reads-while-short", c.ipos(rd), "a block is read only while the total is strictly below the compared range", "a block can be read with nothing left to compare: an empty read repeats the same step and the receiver rejects it")
+		}
 		c.check(goodB, "pipelineSendHash/read-within-range", c.ipos(rd), "each read is capped by what is left of the compared range (size - step)", "a read can run past the compared range: the digest then covers bytes the receiver never hashes")
 	}
 	if len(stepCalls) == 0 || len(overCalls) == 0 {
